@@ -16,7 +16,9 @@ LEVEL_TEXT = ("Generated DCOPs restricted to what the YAML format expresses (nam
               "per-computation hosting costs) are dumped with dcop_yaml and read back from a string, from a single "
               "path given as str, from a one-element list and from the text split into 2-3 files. Oracle: structural "
               "equivalence evaluated accessor by accessor and every constraint compared on every assignment against "
-              "the reference value of the case description. Sampling, not proof.")
+              "the reference value of the case description. File names are handed over as list, tuple, generator, iterator, dict keys or "
+              "pathlib.Path; a quarter of the all-extensional cases use domains mixing digit strings and the ints they "
+              "spell (['01', 1]). Sampling, not proof.")
 LEVEL_NOTE = ("Trusted: PyYAML, the reference evaluator. Domain: values without whitespace or '|', plain variables "
               "(the format has no cost-dict variables and dcop_yaml does not write cost functions), symmetric routes, "
               "capacity as only extra agent attribute.")
